@@ -217,7 +217,7 @@ fn compare_block(m: &vpmodel::chain::Block, r: &RBlock, pos: u64, len: usize) ->
 
 #[derive(Clone, Debug, Serialize, Deserialize)]
 struct MerkleCase {
-    n: u16,
+    n: u32,
     seed: u32,
 }
 
